@@ -79,8 +79,14 @@ def check_bs(case) -> Outcome:
         lb, ub = lo0 + 0.2 * (hi0 - lo0), hi0 - 0.15 * (hi0 - lo0)
     elif case["bounds"] == "outer":
         lb, ub = lo0 - 0.1 * (hi0 - lo0), hi0 + 0.2 * (hi0 - lo0)
+    elif case["bounds"] == "zero":
+        # an explicit bound that is exactly 0 (falsy)
+        if hi0 <= 0:
+            lb, ub = lo0 - 0.1 * (hi0 - lo0), 0.0
+        else:
+            lb, ub = 0.0, hi0 + (0.1 * (hi0 - lo0) if lo0 > 0 else 0.0)
     lo, hi = (lb, ub) if lb is not None else (lo0, hi0)
-    if not hi0 > lo0:
+    if not hi0 > lo0 or not hi > lo:
         out.label("excluded:constant-data")
         return out
     kwargs = dict(degree=k, include_intercept=icpt, extrapolation=mode)
@@ -96,7 +102,7 @@ def check_bs(case) -> Outcome:
     else:
         df = None
         fr = sorted(case["knot_fracs"])
-        inner = [lo + f * (hi - lo) for f in fr]
+        inner = [lo if f == 0.0 else (hi if f == 1.0 else lo + f * (hi - lo)) for f in fr]
         # multiplicity must not exceed the degree (else the basis is discontinuous by design; still valid, but
         # scipy's design matrices disagree about the value exactly at such a knot)
         ded = []
@@ -184,6 +190,12 @@ def check_bs(case) -> Outcome:
             at = np.isin(xv, over)
             if at.any():
                 out.label("skipped:points-on-over-multiple-knot")
+                # ... except what holds under every convention: with the intercept column the basis is a
+                # non-negative partition of unity on the closed interval [lower, upper]
+                if icpt and Bm.shape == Rc.shape:
+                    rows_ = Bm[at & inb]
+                    if rows_.size and (not np.allclose(rows_.sum(axis=1), 1.0, atol=1e-9) or np.nanmin(rows_) < -1e-12):
+                        out.fail("bs-partition-of-unity", f"{what}: {kwargs} knots={t}: rows at x in {sorted(set(xv[at & inb].tolist()))} sum to {rows_.sum(axis=1).tolist()}", **feat)
             inb = inb & ~at
         if Bm.shape != Rc.shape:
             out.fail("bs-shape-" + what, f"{kwargs}: {Bm.shape} vs {Rc.shape}", **feat)
@@ -246,9 +258,10 @@ def gen_bs():
             "degree": st.integers(0, 5),
             "include_intercept": st.booleans(),
             "extrapolation": st.sampled_from(["raise", "clip", "na", "zero", "extend"]),
-            "bounds": st.sampled_from(["data", "data", "inner", "outer"]),
+            "bounds": st.sampled_from(["data", "data", "inner", "outer", "zero"]),
             "df_extra": st.one_of(st.none(), st.integers(0, 6)),
-            "knot_fracs": st.lists(st.sampled_from([0.1, 0.25, 0.3, 0.5, 0.5, 0.75, 0.9]), max_size=5),
+            # (0.0 / 1.0: an inner knot tied to a boundary)
+            "knot_fracs": st.lists(st.sampled_from([0.1, 0.25, 0.3, 0.5, 0.5, 0.75, 0.9, 0.0, 1.0]), max_size=5),
             "follow": st.one_of(st.none(), st.fixed_dictionaries({"seed": st.integers(0, 999), "n": st.integers(1, 12), "spread": st.sampled_from([0.0, 0.3, 2.0])})),
         }
     )
@@ -275,8 +288,13 @@ def check_cs(case) -> Outcome:
         lb, ub = lo0 + 0.2 * (hi0 - lo0), hi0 - 0.15 * (hi0 - lo0)
     elif case["bounds"] == "outer":
         lb, ub = lo0 - 0.1 * (hi0 - lo0), hi0 + 0.2 * (hi0 - lo0)
+    elif case["bounds"] == "zero":
+        if hi0 <= 0:
+            lb, ub = lo0 - 0.1 * (hi0 - lo0), 0.0
+        else:
+            lb, ub = 0.0, hi0 + (0.1 * (hi0 - lo0) if lo0 > 0 else 0.0)
     lo, hi = (lb, ub) if lb is not None else (lo0, hi0)
-    if not hi0 > lo0:
+    if not hi0 > lo0 or not hi > lo:
         out.label("excluded:constant-data")
         return out
     kwargs = dict(extrapolation=mode)
@@ -411,7 +429,7 @@ def gen_cs():
             "round": st.sampled_from([None, None, None, 1]),
             "cyclic": st.booleans(),
             "extrapolation": st.sampled_from(["raise", "clip", "na", "zero", "extend", "extend"]),
-            "bounds": st.sampled_from(["data", "data", "inner", "outer"]),
+            "bounds": st.sampled_from(["data", "data", "inner", "outer", "zero"]),
             "constraints": st.sampled_from([None, None, "center", "center", "array"]),
             "df_extra": st.one_of(st.none(), st.integers(0, 5), st.integers(0, 1)),
             "knot_fracs": st.lists(st.sampled_from([0.1, 0.25, 0.3, 0.5, 0.6, 0.75, 0.9]), max_size=5),
